@@ -26,6 +26,9 @@ Definition noerr_view (s : st) :=
   (s_src s, s_srclen s, s_cur s, s_buf s, (s_ct_byte s, s_ct_start s, s_ct_line s), s_modes s, s_nmodes s,
    (s_cp s, s_mnl s, s_pstat s, s_mark s, s_perr s), (s_iters s, s_aborted s, s_loop_detected s)).
 
+Lemma lines_pos_emit_errs ks : forall s, lines_pos s -> lines_pos (emit_errs s ks).
+Proof. induction ks as [|k r IH]; intros s H; [exact H|]. cbn [emit_errs]. apply IH, lines_pos_error. exact H. Qed.
+
 Lemma emit_errs_view ks : forall s, noerr_view (emit_errs s ks) = noerr_view s.
 Proof. induction ks as [|k r IH]; intros s; [reflexivity|]. cbn [emit_errs]. rewrite IH. reflexivity. Qed.
 
@@ -132,6 +135,139 @@ Proof.
   cbv zeta. unfold numeric_literal. apply Main.
 Qed.
 
+
+(** ** no candidate reading consumes a line feed *)
+Definition safeN (l : list char) : N := count_while (fun x => negb (x =? NL)) l.
+
+Lemma safe_ok : forall (l : list char) n, n <= safeN l -> no_nl (firstn (N.to_nat n) l) = true.
+Proof.
+  induction l as [|a l IH]; intros n H; [destruct (N.to_nat n); reflexivity|].
+  unfold safeN in H. cbn [count_while] in H. fold (safeN l) in H.
+  destruct (negb (a =? NL)) eqn:E.
+  - destruct (N.to_nat n) as [|k] eqn:En; [reflexivity|]. cbn [firstn]. unfold no_nl. cbn [forallb]. rewrite E. cbn [andb].
+    replace k with (N.to_nat (n - 1)) by lia. apply IH. lia.
+  - assert (n = 0) by lia. subst n. reflexivity.
+Qed.
+
+Lemma safe_cons (x : char) (q : list char) : (x =? NL) = false -> safeN (x :: q) = 1 + safeN q.
+Proof. intros H. unfold safeN. cbn [count_while]. rewrite H. reflexivity. Qed.
+
+Lemma safe_while (p : char -> bool) : (forall x, p x = true -> (x =? NL) = false) ->
+  forall l, len (take_while p l) + safeN (drop_while p l) <= safeN l.
+Proof.
+  intros Hp. induction l as [|a l IH]; cbn [take_while drop_while]; [unfold len; cbn [List.length]; lia|].
+  destruct (p a) eqn:E.
+  - rewrite (safe_cons a l (Hp a E)). unfold len in *. cbn [List.length]. lia.
+  - unfold len. cbn [List.length]. lia.
+Qed.
+
+Lemma hexdigit_not_nl x : is_ascii_hexdigit x = true -> (x =? NL) = false.
+Proof. intros H. destruct (N.eqb_spec x NL) as [->|]; [vm_compute in H; discriminate H|reflexivity]. Qed.
+
+Lemma eE_not_nl x : (x =? c_e) || (x =? c_E) = true -> (x =? NL) = false.
+Proof. intros H. destruct (N.eqb_spec x NL) as [->|]; [vm_compute in H; discriminate H|reflexivity]. Qed.
+
+Lemma eq_not_nl (x k : char) : (x =? k) = true -> (k =? NL) = false -> (x =? NL) = false.
+Proof. intros H. apply N.eqb_eq in H. subst x. exact (fun H => H). Qed.
+
+Lemma some_len' a (r : numres) : Some a = Some r -> n_len r = n_len a.
+Proof. intros H. injection H as <-. reflexivity. Qed.
+
+Lemma integer_safe l r : try_parse_integer l = Some r -> n_len r <= safeN l.
+Proof.
+  unfold try_parse_integer. pose proof (safe_while is_ascii_digit digit_not_nl l) as S1.
+  destruct (take_while is_ascii_digit l) as [|d ds]; [discriminate|].
+  destruct (U64_MAX <? _); [discriminate|]. intros H. rewrite (some_len' _ _ H). cbn [n_len]. lia.
+Qed.
+
+Lemma hex_safe l r : try_parse_hex_integer l = Some r -> n_len r <= safeN l.
+Proof.
+  unfold try_parse_hex_integer. pose proof (safe_while is_ascii_hexdigit hexdigit_not_nl l) as S1.
+  destruct (take_while is_ascii_hexdigit l) as [|d ds]; [discriminate|].
+  destruct (_ <=? U64_MAX).
+  - intros H. rewrite (some_len' _ _ H). cbn [n_len]. lia.
+  - destruct (drop_while is_ascii_hexdigit l) as [|c q].
+    + intros H. rewrite (some_len' _ _ H). cbn [n_len]. lia.
+    + destruct (c =? c_dot) eqn:Ec.
+      * pose proof (safe_while is_ascii_hexdigit hexdigit_not_nl q) as S2.
+        rewrite (safe_cons c q (eq_not_nl c c_dot Ec eq_refl)) in S1.
+        intros H. rewrite (some_len' _ _ H). cbn [n_len]. lia.
+      * intros H. rewrite (some_len' _ _ H). cbn [n_len]. lia.
+Qed.
+
+Ltac float_leaf :=
+  let H := fresh "H" in
+  intros H; rewrite (some_len' _ _ H); cbn [n_len]; unfold len in *; cbn [List.length] in *; lia.
+
+(* the exponent part: marker, optional sign, digits *)
+Lemma float_safe l0 res : try_parse_float l0 = Some res -> n_len res <= safeN l0.
+Proof.
+  pose proof (safe_while is_ascii_digit digit_not_nl) as SW.
+  unfold try_parse_float.
+  assert (N0 : exists neg l, (match l0 with c :: r => if c =? c_minus then (true, r) else (false, l0) | [] => (false, l0) end) = (neg, l)
+                             /\ (if neg then 1 else 0) + safeN l <= safeN l0).
+  { destruct l0 as [|c r]; [exists false, []; split; [reflexivity|lia]|]. destruct (c =? c_minus) eqn:E.
+    - exists true, r. split; [reflexivity|]. rewrite (safe_cons c r (eq_not_nl c c_minus E eq_refl)). lia.
+    - exists false, (c :: r). split; [reflexivity|lia]. }
+  destruct N0 as (neg & l & -> & Hneg).
+  pose proof (SW l) as S1.
+  destruct (drop_while is_ascii_digit l) as [|c q] eqn:E1.
+  - destruct (take_while is_ascii_digit l) as [|d ds]; [discriminate|]. float_leaf.
+  - destruct (c =? c_dot) eqn:Ec.
+    + rewrite (safe_cons c q (eq_not_nl c c_dot Ec eq_refl)) in S1.
+      pose proof (SW q) as S2.
+      destruct (drop_while is_ascii_digit q) as [|e q2] eqn:E2.
+      * destruct (take_while is_ascii_digit l) as [|d ds]; destruct (take_while is_ascii_digit q) as [|d' ds']; try discriminate; float_leaf.
+      * destruct ((e =? c_e) || (e =? c_E)) eqn:Ee.
+        -- rewrite (safe_cons e q2 (eE_not_nl e Ee)) in S2.
+           destruct q2 as [|x q3].
+           ++ destruct (take_while is_ascii_digit l) as [|d ds]; destruct (take_while is_ascii_digit q) as [|d' ds']; try discriminate; float_leaf.
+           ++ pose proof (SW q3) as S3. pose proof (SW (x :: q3)) as S3'.
+              destruct (x =? c_plus) eqn:Ep; [rewrite (safe_cons x q3 (eq_not_nl x c_plus Ep eq_refl)) in S2
+                |destruct (x =? c_minus) eqn:Em; [rewrite (safe_cons x q3 (eq_not_nl x c_minus Em eq_refl)) in S2|]];
+              match goal with |- context [take_while is_ascii_digit ?z] =>
+                 match z with l => fail 1 | q => fail 1 | _ => destruct (take_while is_ascii_digit z) end end;
+              destruct (take_while is_ascii_digit l) as [|d ds]; destruct (take_while is_ascii_digit q) as [|d' ds']; try discriminate; float_leaf.
+        -- destruct (take_while is_ascii_digit l) as [|d ds]; destruct (take_while is_ascii_digit q) as [|d' ds']; try discriminate; float_leaf.
+    + destruct ((c =? c_e) || (c =? c_E)) eqn:Ee.
+      * rewrite (safe_cons c q (eE_not_nl c Ee)) in S1.
+        destruct q as [|x q3].
+        -- destruct (take_while is_ascii_digit l) as [|d ds]; try discriminate; float_leaf.
+        -- pose proof (SW q3) as S3. pose proof (SW (x :: q3)) as S3'.
+           destruct (x =? c_plus) eqn:Ep; [rewrite (safe_cons x q3 (eq_not_nl x c_plus Ep eq_refl)) in S1
+             |destruct (x =? c_minus) eqn:Em; [rewrite (safe_cons x q3 (eq_not_nl x c_minus Em eq_refl)) in S1|]];
+           match goal with |- context [take_while is_ascii_digit ?z] =>
+              match z with l => fail 1 | _ => destruct (take_while is_ascii_digit z) end end;
+           destruct (take_while is_ascii_digit l) as [|d ds]; try discriminate; float_leaf.
+      * destruct (take_while is_ascii_digit l) as [|d ds]; try discriminate; float_leaf.
+Qed.
+
+Lemma decimal_safe l ti tf r : try_parse_decimal l ti tf = Some r -> n_len r <= safeN l.
+Proof.
+  unfold try_parse_decimal.
+  destruct ti; destruct tf;
+    repeat match goal with
+           | |- context [try_parse_integer l] => pose proof (integer_safe l) as HI; destruct (try_parse_integer l)
+           | |- context [try_parse_float l] => pose proof (float_safe l) as HF; destruct (try_parse_float l)
+           end;
+    try match goal with |- context [if ?b then _ else _] => destruct b end;
+    intros H; try discriminate; injection H as <-; auto.
+Qed.
+
+Lemma num_choice_safe l sd : n_len (fst (num_choice l sd)) <= safeN l.
+Proof.
+  unfold num_choice.
+  pose proof (decimal_safe l (negb sd) true) as HD.
+  assert (HH : forall hr, (if sd then None else try_parse_hex_integer l) = Some hr -> n_len hr <= safeN l).
+  { destruct sd; [discriminate|]. apply hex_safe. }
+  destruct (try_parse_decimal l (negb sd) true) as [dr|]; destruct (if sd then None else try_parse_hex_integer l) as [hr|].
+  - specialize (HD dr eq_refl). specialize (HH hr eq_refl).
+    destruct (n_len hr <? n_len dr); [exact HD|]. destruct (n_len dr <? n_len hr); [exact HH|].
+    destruct (nthN l (n_len hr)) as [c|]; [destruct (is_xc c)|]; assumption.
+  - exact (HD dr eq_refl).
+  - exact (HH hr eq_refl).
+  - cbn [fst n_len]. pose proof (safe_while is_ascii_digit digit_not_nl l). lia.
+Qed.
 
 (** ** every candidate reading consumes at least one character *)
 Lemma len_pos_cons {A} (x : A) l : 1 <= len (x :: l).
@@ -270,8 +406,7 @@ Section Num.
         change (w_lit (s_buf s1) = rs_lit rs). rewrite (fe_lit _ _ Fe). exact (oc_lit _ _ _ HOC).
       + change (w_litlen (s_buf (emit_errs (st_emit s1 CH_DEFAULT ty pl) ks)) = rs_litlen rs). rewrite (ne_buf _ _ Ne).
         change (w_litlen (s_buf s1) = rs_litlen rs). rewrite (fe_litlen _ _ Fe). exact (oc_litlen _ _ _ HOC).
-      + destruct Hl as [q Hq]. exists q. change (w_nlines (s_buf (emit_errs (st_emit s1 CH_DEFAULT ty pl) ks)) = N.pos q).
-        rewrite (ne_buf _ _ Ne). exact Hq.
+      + apply lines_pos_pend, lines_pos_emit_errs, lines_pos_emit. exact Hl.
     - change (c_rest (s_cur (emit_errs (st_emit s1 CH_DEFAULT ty pl) ks)) = skipn_N (N.to_nat n) (c_rest (s_cur s))).
       rewrite (ne_cur _ _ Ne). exact Hrest.
     - change (map (tv bb) (w_toks (s_buf (emit_errs (st_emit s1 CH_DEFAULT ty pl) ks))) =
@@ -401,7 +536,7 @@ Section Num.
     intros l HOC Hr Hpos Hsd Hrun. subst l.
     pose proof (numeric_literal_choice (c0 :: r0)) as Hnl. cbv zeta in Hnl. cbv iota in Hnl. rewrite <- Hsd in Hnl.
     rewrite Hnl. clear Hnl. set (l := c0 :: r0) in *.
-    unfold num_final in *. destruct (num_choice l sd) as [res cx]. cbn [fst] in Hpos.
+    unfold num_final in *. pose proof (num_choice_safe l sd) as Hsafe. destruct (num_choice l sd) as [res cx]. cbn [fst] in Hpos, Hsafe.
     destruct (st_adv_by_spec (st_start s) (n_len res)) as (R1 & F1 & L1).
     set (s1 := st_adv_by (st_start s) (n_len res)) in *.
     change (c_rest (s_cur (st_start s))) with (c_rest (s_cur s)) in R1. rewrite Hr in R1.
@@ -412,11 +547,16 @@ Section Num.
     set (n := n_len res + (if hasx then 1 else 0)).
     assert (H2 : frame s2 = frame (st_start s) /\ lines_pos s2 /\ c_rest (s_cur s2) = skipn_N (N.to_nat n) l).
     { assert (Hl1 : lines_pos s1).
-      { destruct (oc_lines _ _ _ HOC) as [q Hq]. exists q. rewrite L1. exact Hq. }
+      { unfold s1. apply lines_pos_adv_by; [apply lines_pos_start; exact (oc_lines _ _ _ HOC)|].
+        change (c_rest (s_cur (st_start s))) with (c_rest (s_cur s)). rewrite Hr. apply safe_ok.
+        exact Hsafe. }
       subst s2 n. destruct hasx eqn:Eh.
       - destruct (skipn_N (N.to_nat (n_len res)) l) as [|x q] eqn:Es.
         + subst hasx. rewrite andb_false_r in Eh. discriminate.
-        + split; [rewrite (frame_adv s1 x q); exact F1|]. split; [exact Hl1|].
+        + assert (Hx : (x =? NL) = false).
+          { pose proof Eh as Eh'. unfold hasx in Eh'. apply andb_true_iff in Eh'. destruct Eh' as [_ Ex].
+            destruct (N.eqb_spec x NL) as [->|]; [vm_compute in Ex; discriminate Ex|reflexivity]. }
+          split; [rewrite (frame_adv s1 x q); exact F1|]. split; [apply lines_pos_adv; [exact Hx|exact Hl1]|].
           replace (c_rest (s_cur (st_adv s1 x q))) with q by reflexivity.
           replace (N.to_nat (n_len res + 1)) with (S (N.to_nat (n_len res))) by lia.
           symmetry. apply (skipn_N_succ _ _ x q Es).
